@@ -572,7 +572,15 @@ func ({short_name} {full_name}) MarshalJSON() ([]byte, error) {{
 }
 
 fn write_comment(w: &mut dyn Write, indent: usize, comment: &str) -> std::io::Result<()> {
-    writeln!(w, "{}// {}", "\t".repeat(indent), comment)?;
+    // A doc string can span several lines (block doc comments): each line needs its own `//`.
+    for line in comment.split('\n') {
+        writeln!(
+            w,
+            "{}// {}",
+            "\t".repeat(indent),
+            line.trim_end_matches('\r')
+        )?;
+    }
     Ok(())
 }
 
